@@ -67,8 +67,15 @@ func libEffects(x *ssa.Call) ([]string, bool) {
 			return nil, true
 		}
 		return nil, false
-	case "(*bytes.Buffer).Bytes", "(*bytes.Buffer).Len", "(*bytes.Buffer).String":
+	case "(*bytes.Buffer).Bytes", "(*bytes.Buffer).Len", "(*bytes.Buffer).String", "sort.Search":
 		return nil, true
+	}
+	if strings.HasSuffix(name, "slices.Insert") {
+		if sl, ok := x.Call.Args[0].Type().Underlying().(*types.Slice); ok {
+			return []string{elemHeapPrefix(sl.Elem())}, true
+		}
+	}
+	switch name {
 	}
 	return nil, false
 }
@@ -162,6 +169,11 @@ func (f *FuncVC) libCall(st *State, x *ssa.Call, args []*Val) (*Val, bool) {
 				return &Val{K: KTuple, Ty: resTy}, true
 			}
 		}
+	case "sort.Search":
+		f.usedAssumed[name+": returns an index in [0,n]; the predicate closure is assumed free of side effects"] = true
+		r := f.freshTyped(st, resTy, "search")
+		f.sc.assert(and(cmp("<=", "0", r.T), cmp("<=", r.T, "(imax "+args[0].T+" 0)")))
+		return r, true
 	case "(*bytes.Buffer).Bytes":
 		f.usedAssumed[name+": returns a slice of the buffer contents (contents not modelled)"] = true
 		return f.freshTyped(st, resTy, "bufbytes"), true
@@ -177,6 +189,22 @@ func (f *FuncVC) libCall(st *State, x *ssa.Call, args []*Val) (*Val, bool) {
 			f.usedAssumed[name+" into a *bytes.Buffer: no effect on modelled state, result error unconstrained"] = true
 			return f.freshTyped(st, resTy, "binwrite"), true
 		}
+	}
+	if strings.HasSuffix(name, "slices.Insert") && len(args) >= 2 && args[0].K == KSlice {
+		f.usedAssumed["slices.Insert: returns a slice of length len(s)+len(values) (contents not modelled); panics if the index is out of range"] = true
+		f.oblige(st, "index", f.srcAt(x.Pos()), and(cmp("<=", "0", args[1].T), cmp("<=", args[1].T, args[0].Fs[2].T)))
+		nv := "1"
+		if len(args) >= 3 && args[2].K == KSlice {
+			nv = args[2].Fs[2].T
+		}
+		// the backing array of s may be overwritten in place: havoc its elements
+		et := args[0].Ty.Underlying().(*types.Slice).Elem()
+		f.applyMod(st, resolvedMod{kind: "elems", heap: elemHeapPrefix(et), obj: args[0].Fs[0].T, off: args[0].Fs[1].T, ln: args[0].Fs[3].T, text: "slices.Insert argument"}, f.srcAt(x.Pos()))
+		r := f.freshTyped(st, resTy, "ins")
+		f.sc.assert(eq(r.Fs[2].T, arith("+", args[0].Fs[2].T, nv)))
+		f.sc.assert(or(eq(r.Fs[0].T, args[0].Fs[0].T), cmp(">=", r.Fs[0].T, st.wm)))
+		f.bumpWM(st)
+		return r, true
 	}
 	if isPureLib(name) {
 		f.usedAssumed[name+": pure (fresh result, no heap effect)"] = true
